@@ -17,22 +17,29 @@ VARIABLES c,          \* 0 = nothing built yet, else index into Configs
           steps, act
 vars == <<c, ss, steps, act>>
 
-ASSUME \A k \in 1..Len(Configs) : ConflictFree(Configs[k])
+ASSUME \A k \in 1..Len(Configs) : InDomain(Configs[k])
 
+(* views, streams and identities are resolved once per configuration (constant *)
+(* level definitions are evaluated once by TLC; TLCEval turns the lazily        *)
+(* evaluated function constructors into tables)                                *)
+Tabs == TLCEval([k \in 1..Len(Configs) |-> TLCEval(Table(Configs[k]))])
+FMaps == TLCEval([k \in 1..Len(Configs) |->
+                    TLCEval([i \in 1..Len(Configs[k].insts) |-> TLCEval(Feeds(Configs[k], Tabs[k], i))])])
+Lims == TLCEval([k \in 1..Len(Configs) |-> Configs[k].limit])
 Cfg == Configs[c]
-Tab == Table(Cfg)
+Tab == Tabs[c]
 ValsOf(kind) == IF kind \in {"updown", "oupdown"} THEN {-1, 2} ELSE {1, 2}
 
 Init == c = 0 /\ ss = <<>> /\ steps = 0 /\ act = [op |-> "Init"]
 
 Setup(k) == /\ c = 0
             /\ c' = k
-            /\ ss' = [t \in 1..Len(Table(Configs[k])) |-> NewAgg]
+            /\ ss' = [t \in 1..Len(Tabs[k]) |-> NewAgg]
             /\ steps' = 0
             /\ act' = [op |-> "S", cfg |-> Configs[k]]
 
 Measure(i, a, v) == /\ steps < MaxSteps
-                    /\ ss' = ApplyM(Cfg, Tab, ss, i, a, v)
+                    /\ ss' = ApplyF(Lims[c], Tab, FMaps[c][i], ss, a, v)
                     /\ steps' = steps + 1
                     /\ act' = [op |-> "M", i |-> i, attrs |-> a, v |-> v]
                     /\ UNCHANGED c
@@ -49,7 +56,7 @@ Next == \/ \E k \in 1..Len(Configs) : Setup(k)
 Spec == Init /\ [][Next]_vars
 
 View == <<c, ss>>
-Proj(k, s) == [c |-> k, ss |-> s, peek |-> IF k = 0 THEN {} ELSE Report(Configs[k], Table(Configs[k]), s)]
+Proj(k, s) == [c |-> k, ss |-> s, peek |-> IF k = 0 THEN {} ELSE Report(Configs[k], Tabs[k], s)]
 EmitEdge == PrintT("EDGE " \o ToJson([from |-> Proj(c, ss), act |-> act', to |-> Proj(c', ss')]))
 
 -----------------------------------------------------------------------------
